@@ -10,6 +10,10 @@ from .report import run_check
 
 
 def main(argv=None):
+    # deterministic iteration order of sets/dicts of strings (sentence generation, report order): fixed hash seed
+    if argv is None and os.environ.get('PYTHONHASHSEED') != '0':
+        env = dict(os.environ, PYTHONHASHSEED='0')
+        os.execve(sys.executable, [sys.executable, '-m', 'sa.check', *sys.argv[1:]], env)
     ap = argparse.ArgumentParser()
     ap.add_argument('property')
     ap.add_argument('--tier', default=os.environ.get('VERIF_TIER') or 'quick', choices=['quick', 'thorough'])
